@@ -35,7 +35,8 @@ ARITH_CASTS = {'IntegralCast', 'FloatingToIntegral', 'IntegralToFloating', 'Floa
 TRANSPARENT = {'ExprWithCleanups', 'MaterializeTemporaryExpr', 'CXXBindTemporaryExpr', 'ConstantExpr',
                'SubstNonTypeTemplateParmExpr', 'FullExpr'}
 FOPS = {'+': 'NV_FADD', '-': 'NV_FSUB', '*': 'NV_FMUL', '/': 'NV_FDIV'}
-CAST_KINDS = {'ImplicitCastExpr', 'CXXStaticCastExpr', 'CStyleCastExpr', 'CXXFunctionalCastExpr', 'CXXConstCastExpr'}
+CAST_KINDS = {'ImplicitCastExpr', 'CXXStaticCastExpr', 'CStyleCastExpr', 'CXXFunctionalCastExpr', 'CXXConstCastExpr',
+              'CXXReinterpretCastExpr'}
 
 
 def qual(t):
@@ -237,6 +238,12 @@ class Printer:
                 return 'NULL'
             if ck == 'ToVoid':
                 return f'((void)({self.expr(inner[0])}))'
+            if ck == 'BitCast' and qual(n['type']).rstrip().endswith('*'):
+                # reinterpret_cast / implicit conversion between object pointer types (e.g. T* -> char*): explicit C cast
+                return f'(({self.ctype(n["type"])})({self.expr(inner[0])}))'
+            if ck == 'LValueBitCast':
+                # reinterpret_cast<const U&>(lvalue): the same storage read as a U
+                return f'(*({self.ctype(n["type"])}*)({self.addr(inner[0])}))'
             raise Unsupported(f'cast kind {ck}')
         if k == 'ParenExpr':
             return '(' + self.expr(inner[0]) + ')'
@@ -483,7 +490,8 @@ class Printer:
         if k == 'ReturnStmt':
             if not inner:
                 return f'{p}return;\n'
-            e = self.expr(inner[0])
+            # a function returning a reference prints as a function returning a pointer: return the address
+            e = self.addr(inner[0]) if getattr(self, 'ret_ref', False) else self.expr(inner[0])
             if getattr(self, 'pending_throw', False):
                 self.pending_throw = False
                 self.tmp += 1
@@ -574,6 +582,7 @@ class Printer:
         else:
             rc = self.ctype_q(rett)
         self.ret_ctype = rc
+        self.ret_ref = (not ret_override) and rett.rstrip().endswith('&')
         ps = []
         if self.self_struct:
             ps.append(f'{self.self_struct}* self')
